@@ -170,6 +170,11 @@ func dischargeAll(obls []*Obligation, dir string, timeoutS, seed, workers int, c
 					o.Result = solveCover(q, f, seed)
 					continue
 				}
+				if o.ExpectedToFail {
+					// listed as a known finding: one short attempt is enough to see that it still does not hold
+					o.Result = solve(q, f, 5, seed, !o.WantSat, false)
+					continue
+				}
 				o.Result = solve(q, f, timeoutS, seed, !o.WantSat, confirm)
 				if o.Result.Status == "unknown" || o.Result.Status == "timeout" {
 					// one retry with a longer budget
